@@ -19,7 +19,6 @@ SRC = vlib.BASE_SRC + ["flow/state_machine.cpp"]
 SPEC = "Hfsm"
 CLAUSES = ["ExitActionEnterOrder", "OncePerTransition", "StartStopShape", "EnterExitBalanced", "EnteredIffCurrent",
            "HandlerBeforeRoutes", "FirstMatchingRoute", "SubMachineFirstUntilTerminated", "ReentrantCallsRejected", "StateSane"]
-ACTIONS = ["MStart", "MStop", "MRestart", "MRun"]
 # wrong semantics -> (family it is shown on, clause it must violate)
 VARIANTS = [("stop_keeps_sub", "nestq", "EnterExitBalanced"),          # as found: stop() left the nested machine running
             ("stuck_parent", "nestq", "SubMachineFirstUntilTerminated"),  # as found: stopped nested machine still consulted
@@ -33,12 +32,12 @@ VARIANTS = [("stop_keeps_sub", "nestq", "EnterExitBalanced"),          # as foun
 
 def par_mc(ctx, jobs):
     """Run several TLC model-checking jobs concurrently (helper local to this check: ctx.tlc_mc is sequential).
-    job = dict(label, cfg, expect, workers, coverage).  Book-keeping mirrors Ctx.tlc_mc and happens on the main thread."""
+    job = dict(label, cfg, expect, workers, timeout).  Book-keeping mirrors Ctx.tlc_mc and happens on the main thread.
+    No -coverage: TLC's cost model runs out of memory on the recursive operators (see coverage_guard)."""
     d = os.path.join(vlib.SPEC, SPEC)
 
     def run(job):
-        extra = ["-coverage", "1"] if job.get("coverage") else []
-        cmd = vlib._tlc_cmd("MC_Hfsm.tla", job["cfg"], job["meta"], job["workers"], extra, ("-Xmx3g",))
+        cmd = vlib._tlc_cmd("MC_Hfsm.tla", job["cfg"], job["meta"], job["workers"], [], ("-Xmx3g",))
         t = time.time()
         rc, out = vlib.sh(cmd, timeout=job.get("timeout", 900), cwd=d)
         return job, rc, out, round(time.time() - t, 1)
@@ -58,17 +57,12 @@ def par_mc(ctx, jobs):
                 ctx.violation("model %s violates %s" % (lab, r["violated"]), path)
             elif rc != 0:
                 raise vlib.Infra("TLC failed (rc=%d) on %s:\n%s" % (rc, lab, out[-3000:]))
-            for a in job.get("required_actions", ()):
-                if r["coverage"].get(a, [0, 0])[0] == 0:
-                    raise vlib.Infra("vacuity guard: action %s never taken in %s" % (a, lab))
+            if r["distinct"] < 100 or r["depth"] < 5:
+                raise vlib.Infra("vacuity guard: %s explored only %d states to depth %d" % (lab, r["distinct"], r["depth"]))
         elif r["violated"] != expect:
             raise vlib.Infra("expected %s to violate %s (non-vacuity), got %s\n%s" % (lab, expect, r["violated"], out[-2000:]))
         ctx.states += r["distinct"]
         ctx.transitions += r["states"]
-        for k, v in r["coverage"].items():
-            c = ctx.actions.setdefault(k, [0, 0])
-            c[0] += v[0]
-            c[1] += v[1]
         ctx.mc_runs.append({"model": lab, "expect": expect, "distinct_states": r["distinct"], "states_generated": r["states"],
                             "depth": r["depth"], "wall_s": wall, "mode": "bfs-exhaustive"})
         ctx.log("TLC %-44s %s distinct=%d gen=%d depth=%d %.1fs" % (
@@ -89,7 +83,7 @@ def model_check(ctx):
     jobs = []
     for var, fam, clause in VARIANTS:
         jobs.append({"label": "MC_Hfsm/%s variant=%s" % (fam, var), "expect": clause,
-                     "cfg": "MC_var_%s.cfg" % var, "workers": 1, "timeout": 300})
+                     "cfg": "MC_var_%s.cfg" % var, "workers": 1, "timeout": 900})
     par_mc(ctx, jobs)
 
 
@@ -243,6 +237,34 @@ def coverage_guard(ctx, traces):
         ctx.actions[k] = [v, v]
 
 
+def gen_walks(ctx, cfg, num, depth):
+    """TLC -simulate with a fixed -seed (Ctx.tlc_gen cannot pass one; local helper so that a run is reproducible for a
+    fixed VERIF_SEED).  One worker: the walks then depend on the seed only."""
+    d = os.path.join(vlib.SPEC, SPEC)
+    cmd = vlib._tlc_cmd("Gen_Hfsm.tla", cfg, ctx.metadir(), 1,
+                        ["-simulate", "num=%d" % num, "-depth", str(depth), "-seed", str(1000 + ctx.seed)], ("-Xmx3g",))
+    t = time.time()
+    rc, out = vlib.sh(cmd, timeout=1800, cwd=d)
+    if rc != 0:
+        raise vlib.Infra("TLC gen failed rc=%d Gen_Hfsm.tla/%s\n%s" % (rc, cfg, out[-3000:]))
+    seen, res = set(), []
+    for line in out.splitlines():
+        line = line.strip()
+        if not line.startswith('"BEH '):
+            continue
+        body = json.loads(line)[4:]
+        if body not in seen:
+            seen.add(body)
+            res.append(json.loads(body))
+    walks = join_gen(res)
+    ctx.mc_runs.append({"model": "Gen_Hfsm.tla/%s" % cfg, "expect": "generate", "behaviours": len(walks),
+                        "wall_s": round(time.time() - t, 1), "mode": "simulate"})
+    ctx.log("GEN %-40s walks=%d %.1fs" % ("Gen_Hfsm.tla/" + cfg, len(walks), time.time() - t))
+    if not walks:
+        raise vlib.Infra("generator Gen_Hfsm.tla/%s produced no behaviours\n%s" % (cfg, out[-2000:]))
+    return walks
+
+
 def join_gen(items):
     tab = {x["tab"]: x["p"] for x in items if "tab" in x}
     return [{"p": tab[x["pi"]], "calls": x["calls"]} for x in items if "calls" in x]
@@ -278,10 +300,9 @@ def binding(ctx, exe):
     ctx.sample({"kind": "TLC-enumerated program + call sequence executed on the real StateMachine", "calls": small[0]["calls"],
                 "program": small[0]["p"]})
     validate(ctx, exe, small, "gen_small", "TLC-enumerated programs/call sequences", replays=True)
-    nsim = 60 if ctx.quick() else 800           # TLC emits about 10 x num walks
-    sim = join_gen(ctx.tlc_gen(SPEC, "Gen_Hfsm.tla", "Gen_sim.cfg", simulate=(nsim, 30), timeout=900, workers=2))
+    sim = gen_walks(ctx, "Gen_sim.cfg", 600 if ctx.quick() else 8000, 30)
     validate(ctx, exe, sim, "gen_sim", "TLC-simulated long call sequences (family nest)", replays=True)
-    ren = join_gen(ctx.tlc_gen(SPEC, "Gen_Hfsm.tla", "Gen_reent.cfg", simulate=(30 if ctx.quick() else 300, 14), timeout=900, workers=2))
+    ren = gen_walks(ctx, "Gen_reent.cfg", 300 if ctx.quick() else 3000, 14)
     validate(ctx, exe, ren, "gen_reent", "TLC-simulated call sequences with re-entrant attempts (family reent)", replays=True)
     # 3. code -> spec: seeded random programs, deeper and larger than the families
     nprog, ncalls = (700, 36) if ctx.quick() else (8000, 60)
